@@ -1,6 +1,13 @@
 package parser
 
-import "strconv"
+import (
+	"io"
+	"io/fs"
+	"os"
+	"path/filepath"
+	"strconv"
+	"time"
+)
 
 // C10 (bounded): the REAL generated PEG parser (Parse of grammar.peg.go, executed
 // from go/ssa) on programs RENDERED by this harness from a small model, with the
@@ -392,5 +399,160 @@ func VerifC10_Identifier() {
 	f := verifParse("namespace go p\nstruct " + name + " {\n  1: i32 a\n}\nstruct U {\n  1: " + name + " f\n}\n")
 	verifAssert(len(f.Structs) == 2 && f.Structs[0].Name == name, "the declared name")
 	verifAssert(len(f.Structs[1].Fields) == 1 && f.Structs[1].Fields[0].Type.Name == name && f.Structs[1].Fields[0].Name == "f" && f.Structs[1].Fields[0].Modifier == Default, "the name used as a field type")
+	verifReach("end")
+}
+
+func init() {
+	verifHarnesses["VerifC10_Endings"] = VerifC10_Endings
+	verifHarnesses["VerifC10_Includes"] = VerifC10_Includes
+}
+
+// (7) statement terminators and the end of the file: namespace / typedef / const /
+// struct / service statements ended by a newline, ';' (same line, after blanks, on a
+// later line, followed by a comment), and a file that ends with a newline, without
+// one, with trailing blanks or inside a '//' or '#' comment
+func VerifC10_Endings() {
+	estart, ecount := verifChoice(8), 0
+	eos := func() string { // successive statements cycle through the eight terminators from a chosen start
+		ecount++
+		return []string{"\n", ";\n", " ;\n", "\n;\n", "; // c\n", " // c\n", " # c\n", ";"}[(estart+ecount)%8]
+	}
+	last := []string{"\n", "", "  ", " // the end", " # the end", "\n\n", ";", " ; "}[verifChoice(8)]
+	var text string
+	switch verifParam() {
+	case 0: // the file ends with a typedef
+		text = "namespace go p" + eos() + "struct S {\n  1: i32 a\n}" + eos() + "typedef i64 Stamp" + last
+	case 1: // ... with a constant
+		text = "namespace go p" + eos() + "typedef i64 Stamp" + eos() + "const i32 K = 7" + last
+	case 2: // ... with a struct / a service
+		text = "namespace go p" + eos() + "typedef i64 Stamp" + eos() + "const i32 K = 7" + eos() + "struct S {\n  1: i32 a\n}" + eos() + "service Svc {\n  void ping()\n}" + last
+	}
+	f := verifParse(text)
+	verifAssert(len(f.Namespaces) == 1 && f.Namespaces[0].Scope == "go" && f.Namespaces[0].Value == "p", "the namespace")
+	verifAssert(len(f.Typedefs) == 1 && f.Typedefs[0].Name == "Stamp" && f.Typedefs[0].Type.Name == "i64", "the typedef")
+	switch verifParam() {
+	case 0:
+		verifAssert(len(f.Structs) == 1 && len(f.Structs[0].Fields) == 1 && len(f.Constants) == 0, "the struct")
+	case 1:
+		verifAssert(len(f.Constants) == 1 && f.Constants[0].Name == "K" && len(f.Structs) == 0, "the constant")
+	case 2:
+		verifAssert(len(f.Constants) == 1 && len(f.Structs) == 1 && len(f.Services) == 1 && len(f.Services[0].Methods) == 1, "constant, struct and service")
+	}
+	verifReach("end")
+}
+
+// ---- include resolution on an in-memory file system ----
+
+// verifFiles is the file system: os.Open, (*os.File).Stat / Name / Close and
+// ParseReader are redirected by the engine to the functions below, so that the real
+// parseFrugal (path joining, cache, cycle detection, name handling) runs unchanged.
+var verifFiles = map[string]string{}
+var verifParsed []string
+var verifOpen = map[*os.File]string{}
+
+type verifNoFile struct{ name string }
+
+func (e *verifNoFile) Error() string { return "open " + e.name + ": no such file or directory" }
+
+func verifOsOpen(name string) (*os.File, error) {
+	if _, ok := verifFiles[name]; !ok {
+		return nil, &verifNoFile{name}
+	}
+	f := new(os.File)
+	verifOpen[f] = name
+	return f, nil
+}
+
+func verifFileClose(f *os.File) error { return nil }
+func verifFileName(f *os.File) string { return verifOpen[f] }
+
+type verifFileInfo struct{ name string }
+
+func (i verifFileInfo) Name() string       { return i.name }
+func (i verifFileInfo) Size() int64        { return 0 }
+func (i verifFileInfo) Mode() fs.FileMode  { return 0o644 }
+func (i verifFileInfo) ModTime() time.Time { return time.Time{} }
+func (i verifFileInfo) IsDir() bool        { return false }
+func (i verifFileInfo) Sys() interface{}   { return nil }
+
+func verifFileStat(f *os.File) (os.FileInfo, error) {
+	return verifFileInfo{filepath.Base(verifOpen[f])}, nil
+}
+
+func verifParseReader(filename string, r io.Reader, opts ...Option) (interface{}, error) {
+	verifParsed = append(verifParsed, filename)
+	return Parse(filename, []byte(verifFiles[filename]), opts...)
+}
+
+// (8) include resolution and caching (parseFrugal): a program whose includes form a
+// chain, a diamond, or contain two DIFFERENT files with the same base name in
+// different directories: every include resolves to the file next to the including
+// file, every file is parsed once, and each program sees the declarations of exactly
+// the file it included.
+func VerifC10_Includes() {
+	verifFiles = map[string]string{}
+	verifParsed = nil
+	inc := func(path string) string { return "include \"" + path + "\"\n" }
+	decl := func(name string) string { return "struct " + name + " {\n  1: i32 a\n}\n" }
+	sameName := verifParam() == 2
+	switch verifParam() {
+	case 0: // chain  main -> a/mid -> a/leaf
+		verifFiles["/r/main.frugal"] = inc("a/mid.frugal") + "struct M {\n  1: mid.Mid m\n}\n"
+		verifFiles["/r/a/mid.frugal"] = inc("leaf.frugal") + "struct Mid {\n  1: leaf.Leaf l\n}\n"
+		verifFiles["/r/a/leaf.frugal"] = decl("Leaf")
+	case 1: // diamond  main -> left, right -> shared
+		verifFiles["/r/main.frugal"] = inc("left.frugal") + inc("right.frugal") + "struct M {\n  1: left.L l\n  2: right.R r\n}\n"
+		verifFiles["/r/left.frugal"] = inc("shared.frugal") + "struct L {\n  1: shared.Sh s\n}\n"
+		verifFiles["/r/right.frugal"] = inc("shared.frugal") + "struct R {\n  1: shared.Sh s\n}\n"
+		verifFiles["/r/shared.frugal"] = decl("Sh")
+	case 2: // two different files called shared.frugal
+		verifFiles["/r/main.frugal"] = inc("a/shared.frugal") + inc("b/mid.frugal") + "struct M {\n  1: shared.Label l\n  2: mid.Report r\n}\n"
+		verifFiles["/r/a/shared.frugal"] = decl("Label")
+		verifFiles["/r/b/mid.frugal"] = inc("shared.frugal") + "struct Report {\n  1: shared.Code c\n}\n"
+		verifFiles["/r/b/shared.frugal"] = decl("Code")
+	case 3: // the same shape with ARBITRARY one-letter base names s and t (equal or not)
+		c1, c2 := verifNondetU8(), verifNondetU8()
+		verifAssume(c1 >= 'a' && c1 <= 'z' && c2 >= 'a' && c2 <= 'z' && c1 != 'm' && c2 != 'm')
+		sn, tn := "s"+string([]byte{c1}), "s"+string([]byte{c2})
+		verifFiles["/r/main.frugal"] = inc("a/"+sn+".frugal") + inc("b/mid.frugal") + "struct M {\n  1: " + sn + ".Label l\n  2: mid.Report r\n}\n"
+		verifFiles["/r/a/"+sn+".frugal"] = decl("Label")
+		verifFiles["/r/b/mid.frugal"] = inc(tn+".frugal") + "struct Report {\n  1: " + tn + ".Code c\n}\n"
+		verifFiles["/r/b/"+tn+".frugal"] = decl("Code")
+		f, err := parseFrugal("/r/main.frugal", []string{}, map[string]*Frugal{})
+		verifAssert(err == nil && f != nil, "a program whose includes exist and are valid is accepted")
+		a, mid := f.ParsedIncludes[sn], f.ParsedIncludes["mid"]
+		verifAssert(a != nil && len(a.Structs) == 1 && a.Structs[0].Name == "Label", "main's include is the file in a/")
+		verifAssert(mid != nil && mid.ParsedIncludes[tn] != nil && len(mid.ParsedIncludes[tn].Structs) == 1 && mid.ParsedIncludes[tn].Structs[0].Name == "Code", "mid's include is its sibling in b/")
+		if sn == tn {
+			verifReach("same-base-name")
+		}
+		verifReach("end")
+		return
+	}
+	f, err := parseFrugal("/r/main.frugal", []string{}, map[string]*Frugal{}) // what ParseFrugal does (that name is taken by the C18 harness)
+	verifAssert(err == nil && f != nil, "a program whose includes exist and are valid is accepted")
+	count := map[string]int{}
+	for _, p := range verifParsed {
+		count[p]++
+	}
+	for name := range verifFiles {
+		verifAssert(count[name] == 1, "every file of the program is read exactly once")
+	}
+	switch verifParam() {
+	case 0:
+		mid := f.ParsedIncludes["mid"]
+		verifAssert(mid != nil && len(mid.Structs) == 1 && mid.Structs[0].Name == "Mid", "the include resolves to a/mid.frugal")
+		leaf := mid.ParsedIncludes["leaf"]
+		verifAssert(leaf != nil && len(leaf.Structs) == 1 && leaf.Structs[0].Name == "Leaf", "the include of the include resolves next to the including file")
+	case 1:
+		l, r := f.ParsedIncludes["left"], f.ParsedIncludes["right"]
+		verifAssert(l != nil && r != nil && l.ParsedIncludes["shared"] != nil && l.ParsedIncludes["shared"] == r.ParsedIncludes["shared"], "both sides of a diamond share one parsed program")
+	case 2:
+		a := f.ParsedIncludes["shared"]
+		verifAssert(a != nil && len(a.Structs) == 1 && a.Structs[0].Name == "Label", "main's shared is a/shared.frugal")
+		mid := f.ParsedIncludes["mid"]
+		verifAssert(mid != nil && mid.ParsedIncludes["shared"] != nil && len(mid.ParsedIncludes["shared"].Structs) == 1 && mid.ParsedIncludes["shared"].Structs[0].Name == "Code", "mid's shared is b/shared.frugal")
+		verifAssert(sameName, "two files with one base name")
+	}
 	verifReach("end")
 }
